@@ -62,9 +62,12 @@ Proof. split; [exact (proj1 FPP.table_wellformed)|]. split; [exact (proj2 FPP.ta
 Print Assumptions C08_table_names_resolve.
 
 (** Every anchored stochastic component (7 mating protocols and the meiosis helpers, G_E_Phenotyping, the sampling
-    functions, the 8 selection-configuration classes, the hill climbers, the pymoo optimisers that use pymoo's own operators) does use a generator, and every function it
-    can reach references only: its rng parameter, an owned generator, or global_prng as the default for a missing one.
-    (For the optimisers, which call back into arbitrary problem objects, the named root causes are excepted.) *)
+    functions, the 8 selection-configuration classes, the hill climbers, all pymoo optimisers built from pymoo's own or from
+    the subset operators, the legacy set GA, and — since their repair — the 8 selection protocols' select() and default-optimiser
+    setters, the random-selection problem constructors, Generalized1NormGenomicSelection.select) does use a generator, and
+    every function it can reach references only: its rng parameter (or the random_state pymoo hands over), an owned generator,
+    or global_prng as the default for a missing one.
+    (For the optimisers and select(), which call back into arbitrary problem / optimiser objects, the named root causes are excepted.) *)
 Theorem C08_anchored_components_explicit : forall nm p, In nm FP.must_be_explicit -> FP.id_of nm = Some p ->
   FP.fget FP.fp_excl p <> 0%N /\
   forall k, FP.reach FP.tbl p k -> (In nm FPP.via_callback /\ In k FP.root_ids) \/ FP.sub (FP.direct FP.tbl k) FP.EXPLICIT_OK = true.
@@ -80,6 +83,30 @@ Theorem C08_anchored_components_isolated : forall nm p, In nm FP.must_be_explici
 Proof. exact WP.anchored_isolated. Qed.
 Print Assumptions C08_anchored_components_isolated.
 
+(** The repaired findings (C08-ga-ignores-rng, C08-selcfg-global-rng, C08-helpers-global-rng, C08-g1norm-global-shuffle,
+    C08-setga-python-random) at full strength: every formerly failing site (the former root causes) now references explicit
+    sources only in its own body — no rng = None passed on, no numpy.random / random —, does reference a generator, is NOT on
+    the exception list, and reaches nothing but explicit sources up to the root causes that remain. *)
+Theorem C08_repaired_sites_explicit : forall nm p, In nm FP.repaired -> FP.id_of nm = Some p ->
+  FP.sub (FP.direct FP.tbl p) FP.EXPLICIT_OK = true /\ FP.direct FP.tbl p <> 0%N /\ ~ In p FP.root_ids /\
+  forall k, FP.reach FP.tbl p k -> In k FP.root_ids \/ FP.sub (FP.direct FP.tbl k) FP.EXPLICIT_OK = true.
+Proof. exact FPP.repaired_sites_explicit. Qed.
+Print Assumptions C08_repaired_sites_explicit.
+
+(** Regression witnesses about the FORMER code ([old_*] definitions of the model): the masks the repaired sites had (rng = None
+    passed on; numpy.random; python's random) are not explicit-only and let a global stream be touched under an explicit
+    generator; and a call with the former behaviour (own generator AND numpy's global stream) is not isolated. *)
+Theorem C08_old_masks_refuted :
+  FP.sub FP.old_selcfg_mask FP.EXPLICIT_OK = false /\ FP.may_touch_np true FP.old_selcfg_mask = true /\
+  FP.sub FP.old_global_draw_mask FP.EXPLICIT_OK = false /\ FP.may_touch_np true FP.old_global_draw_mask = true /\
+  FP.sub FP.old_setga_mask FP.EXPLICIT_OK = false /\ FP.may_touch_py FP.old_setga_mask = true.
+Proof. exact FPP.old_masks_refuted. Qed.
+Print Assumptions C08_old_masks_refuted.
+
+Theorem C08_old_global_draw_refuted : exists (c : call Z Z) (i : nat), respects c /\ ~ isolated c i.
+Proof. exact WP.old_global_draw_not_isolated. Qed.
+Print Assumptions C08_old_global_draw_refuted.
+
 (** No function of the package reaches OS entropy — full strength, no exception (every pymoo minimize() call site passes a
     seed derived from the optimiser's generator; the translator reports OS at any call site that does not). *)
 Theorem C08_no_component_reaches_os_entropy : forall n k, FP.reach FP.tbl n k -> FP.has FP.OS (FP.direct FP.tbl k) = false.
@@ -87,7 +114,9 @@ Proof. exact FPP.no_os_entropy. Qed.
 Print Assumptions C08_no_component_reaches_os_entropy.
 
 (** Every function that accepts rng, and every member of a class that owns a generator, reaches only explicit sources —
-    except through the named root causes (the known findings). A new hidden source anywhere else breaks this theorem. *)
+    except through the named root causes of the findings that REMAIN known (memetic mutation operators; helpers without an rng
+    parameter: apply_jitter, EMBV from_gmod, the look-ahead latentfn; deap's selTournamentDCD; prng.seed/spawn by design).
+    A new hidden source anywhere else breaks this theorem. *)
 Theorem C08_rng_components_explicit_partial : forall c k, In c rng_components -> FP.reach FP.tbl c k ->
   In k FP.root_ids \/ FP.sub (FP.direct FP.tbl k) FP.EXPLICIT_OK = true.
 Proof. exact FPP.rng_components_explicit. Qed.
@@ -136,5 +165,9 @@ Print Assumptions C08_spawn_seeds_in_range.
 Example C08_hyps_satisfiable : forall (f g : option MT.st -> option Z * option MT.st),
   (let p := [WP.spawn_call 64 0; WP.explicit_call 0 f; WP.global_call g] in Forall respects p /\ scoped [LPy; LNp] p)
   /\ WP.library_default_call (WP.global_call g)
-  /\ (100 <= length rng_functions)%nat /\ (100 <= length rng_components)%nat /\ (40 <= length FP.must_ids)%nat.
-Proof. intros f g. split; [exact (WP.example_program f g) |]. split; [exact (WP.example_library_call g) | exact FPP.rng_functions_nonempty]. Qed.
+  /\ (100 <= length rng_functions)%nat /\ (100 <= length rng_components)%nat /\ (40 <= length FP.must_ids)%nat
+  /\ (25 <= length FP.repaired_ids)%nat.
+Proof.
+  intros f g. split; [exact (WP.example_program f g) |]. split; [exact (WP.example_library_call g) |].
+  destruct FPP.rng_functions_nonempty as (H1 & H2 & H3). repeat split; try assumption. exact FPP.repaired_nonempty.
+Qed.
